@@ -69,6 +69,12 @@ type step struct {
 	Kill   string `json:"kill,omitempty"`   // blocktime: a log (Tx, Body, ..) whose block-time lookup fails | pollfail: three failing polls
 	GsFail string `json:"gsfail,omitempty"` // idx | set: that call of the re-entered Run's initial guardian-set fetch fails once (Run returns again)
 	Upg    []int  `json:"upg,omitempty"`    // sizes of the guardian sets appended to the contract before Run is made to return
+	// hand-over under back-pressure (cfg.SlowReader): ops pause-reader | resume-reader | read.  The message channel is unbuffered as in
+	// node.go (lockC) and the harness's reader plays the processor: it takes messages only while it is switched on ("resume-reader"),
+	// or exactly N of them ("read").  Kill "dropconn" (the node drops the watcher's connections) is the way to end Run while the
+	// hand-over is parked; DelayMs is how long the reader stays away after Run has been re-entered (restart) / how long a stall lasts.
+	N       int `json:"n,omitempty"`
+	DelayMs int `json:"delayms,omitempty"`
 }
 
 type scenCfg struct {
@@ -80,6 +86,9 @@ type scenCfg struct {
 	Name      string `json:"name"`
 	Restarts  bool   `json:"restarts,omitempty"` // the generated script makes Run return and be re-entered (extension X4)
 	ChainID   uint16 `json:"chainid,omitempty"`  // extension X8: the watcher's chain id (dev mode; 0 = BSC / Ethereum as above)
+	// SlowReader: the message channel is UNBUFFERED (as lockC in node/cmd/guardiand/node.go, read by the processor's single goroutine) and
+	// the harness's reader takes messages only when the script says so: the watcher's hand-over `w.msgChan <- message` can be parked
+	SlowReader bool `json:"slowreader,omitempty"`
 }
 
 const sentinelTx = 900001
@@ -301,6 +310,145 @@ type scen struct {
 	lastSentIdx  int64     // index of the last set that arrived on setChan
 	lost         []*gtInst // logs whose block-time lookup was made to fail
 	keyGen       gsKeyGen
+
+	// hand-over under back-pressure (cfg.SlowReader)
+	outC     chan *common.MessagePublication // what the harness's reader has taken from msgC (== msgC in the other scenarios)
+	rd       slowRd
+	parked   bool       // the watcher has decided to forward a message and waits in the send: its scan is open and it holds pendingMu
+	pk       *parkState // what the step that parked saw before it acted (the steps up to the end of the hand-over are judged as one)
+	pausedAt int
+	handBase int // hand-overs the harness has written off (decided by the watcher, never taken by anybody)
+	noLock   bool
+}
+
+type slowRd struct {
+	mu     sync.Mutex
+	on     bool // free-running
+	budget int  // messages it may still take while switched off ("read")
+	taken  int
+	stop   chan struct{}
+
+	stopOnce sync.Once
+}
+
+type restartWait struct {
+	step           int
+	kill           string
+	subs0, calls0  int
+	runs0, deaths0 int64
+	pollsAtDeath   uint64
+	lockFreeAfter  bool // w.pendingMu could be taken after Run had returned although nobody had taken the message (diagnostic only)
+	reentered      bool
+	awayMs         int
+}
+
+type parkState struct {
+	lk0, sc0   int
+	pendBefore map[[4]uint64]uint64
+	deaths0    int64
+	step       int
+	op         string
+	logOp      *mLog
+	logKey     [4]uint64
+	restart    *restartWait
+}
+
+// handOverDeadline: once the reader takes messages again (and Run is up again, if it had returned), a parked hand-over completes
+// within microseconds; after this long it is written off
+const handOverDeadline = 6 * time.Second
+
+func (sc *scen) readerLoop() {
+	for {
+		select {
+		case <-sc.rd.stop:
+			return
+		default:
+		}
+		got := false
+		sc.rd.mu.Lock()
+		if sc.rd.on || sc.rd.budget > 0 {
+			select {
+			case m := <-sc.msgC:
+				if !sc.rd.on {
+					sc.rd.budget--
+				}
+				sc.outC <- m
+				sc.rd.taken++
+				got = true
+			default:
+			}
+		}
+		sc.rd.mu.Unlock()
+		if !got {
+			time.Sleep(200 * time.Microsecond)
+		}
+	}
+}
+
+// handOvers: (decisions to forward the watcher has logged and the harness has not written off, messages the reader has taken, reader free)
+func (sc *scen) handOvers() (int, int, bool) {
+	sc.rd.mu.Lock()
+	free, taken := sc.rd.on || sc.rd.budget > 0, sc.rd.taken
+	sc.rd.mu.Unlock()
+	sc.sim.mu.Lock()
+	n := sc.sim.notes["confirmed"] + sc.sim.notes["reobs_fwd"] - sc.handBase
+	sc.sim.mu.Unlock()
+	return n, taken, free
+}
+
+// isParked: the reader is away and the watcher has logged one more decision to forward than messages were taken: it sits in the send
+// (`w.msgChan <- message` on an unbuffered channel), in the middle of a scan, holding pendingMu
+func (sc *scen) isParked() bool {
+	n, taken, free := sc.handOvers()
+	return !free && n > taken
+}
+
+// awaitHandOver waits until every decision to forward has been taken by the reader and no scan is open; scans that stay open are
+// written off (the goroutine that ran them is gone or hangs) so that the rest of the history can be judged
+func (sc *scen) awaitHandOver() bool {
+	ok := waitUntil(handOverDeadline, func() bool {
+		if sc.died.Load() != nil {
+			return true
+		}
+		n, taken, _ := sc.handOvers()
+		if n > taken {
+			return false
+		}
+		sc.sim.mu.Lock()
+		defer sc.sim.mu.Unlock()
+		for _, x := range sc.sim.scans {
+			if x.Open {
+				return false
+			}
+		}
+		return true
+	})
+	if ok {
+		return true
+	}
+	n, taken, _ := sc.handOvers()
+	if n > taken {
+		sc.handBase += n - taken
+	}
+	sc.sim.mu.Lock()
+	for i := range sc.sim.scans {
+		if sc.sim.scans[i].Open {
+			sc.sim.scans[i].Open, sc.sim.scans[i].Abandoned, sc.sim.scans[i].To = false, true, len(sc.sim.lookups)
+			sc.stats["scans_written_off"]++
+		}
+	}
+	sc.sim.mu.Unlock()
+	return false
+}
+
+// lockPending takes w.pendingMu.  In the hand-over scenarios the watcher may sit in the send while it holds the lock: the harness
+// must not wait for it for ever
+func (sc *scen) lockPending(d time.Duration) bool {
+	if !sc.cfg.SlowReader {
+		sc.w.pendingMu.Lock()
+		return true
+	}
+	return waitUntil(d, func() bool { return sc.w.pendingMu.TryLock() })
 }
 
 const rendezvousTimeout = 10 * time.Second
@@ -340,6 +488,14 @@ func startScen(cfg scenCfg) (*scen, error) {
 	ss.sim.finalizedMode = cfg.Finalized
 	sc := &scen{cfg: cfg, ss: ss, sim: ss.sim, msgC: make(chan *common.MessagePublication, 4096), obsvC: make(chan *gossipv1.ObservationRequest),
 		logs: map[int]*simLog{}, insts: map[[4]uint64]*gtInst{}, stats: map[string]int{}}
+	sc.outC = sc.msgC
+	if cfg.SlowReader {
+		sc.msgC = make(chan *common.MessagePublication) // as lockC in node.go
+		sc.outC = make(chan *common.MessagePublication, 4096)
+		sc.rd.on = true
+		sc.rd.stop = make(chan struct{})
+		go sc.readerLoop()
+	}
 	setC := make(chan *common.GuardianSet, 64)
 	sc.setC = setC
 	ss.sim.gs = &gsSim{sets: [][]int{sc.keyGen.set(1 + int(cfg.Head0%3))}}
@@ -420,11 +576,30 @@ func startScen(cfg scenCfg) (*scen, error) {
 func (sc *scen) stop() {
 	sc.cancel()
 	sc.ss.stop()
+	if sc.rd.stop != nil {
+		// a hand-over that is still parked is released (the goroutine of the cancelled Run ends)
+		sc.rd.mu.Lock()
+		sc.rd.on = true
+		sc.rd.mu.Unlock()
+		time.Sleep(2 * time.Millisecond)
+		sc.rd.stopOnce.Do(func() { close(sc.rd.stop) })
+	}
 }
 
 func (sc *scen) pendingSnapshot() map[[4]uint64]uint64 {
 	out := map[[4]uint64]uint64{}
-	sc.w.pendingMu.Lock()
+	if !sc.lockPending(rendezvousTimeout) {
+		if sc.isParked() {
+			// the reader is away and the watcher waits for it with the lock held: the script must bring the reader back first
+			sc.harnessf("script error: the pending set was asked for while the watcher's hand-over is waiting for the reader")
+		} else if !sc.noLock {
+			sc.noLock = true
+			n, taken, free := sc.handOvers()
+			sc.monf("liveness:pending-lock-never-released", "w.pendingMu has been held for %v: the watcher logged %d decision(s) to forward, the reader (switched on: %v) has taken %d message(s); Run was entered %d times and returned %d times. No log can be recorded and no head processed while the lock is held",
+				rendezvousTimeout, n, free, taken, atomic.LoadInt64(&sc.runs), atomic.LoadInt64(&sc.deaths))
+		}
+		return out
+	}
 	for k, p := range sc.w.pending {
 		// what is pending is read from the ENTRY (its message) and, for the block hash, from the key by field name: the harness
 		// does not depend on which components the key type has (a key that forgets one shows up as a lost message, not as a build error)
@@ -445,7 +620,9 @@ func (sc *scen) pendingSnapshot() map[[4]uint64]uint64 {
 func (sc *scen) pendingEmptyNoLock() bool { return len(sc.w.pending) == 0 }
 
 func (sc *scen) pendingEmpty() bool {
-	sc.w.pendingMu.Lock()
+	if !sc.lockPending(200 * time.Millisecond) {
+		return false // unknown: the lock is held (a scan is running or parked in the send)
+	}
 	n := len(sc.w.pending)
 	sc.w.pendingMu.Unlock()
 	return n == 0
@@ -497,8 +674,14 @@ func (sc *scen) settle(what string) {
 	sc.sim.mu.Unlock()
 	t0 := time.Now()
 	silent := false
+	parked := false
 	ok := waitUntil(rendezvousTimeout, func() bool {
 		if sc.died.Load() != nil {
+			return true
+		}
+		if sc.cfg.SlowReader && sc.isParked() {
+			// the scan cannot complete before the reader comes back: that is the state the script asked for, not a failure of the rendezvous
+			parked = true
 			return true
 		}
 		empty := sc.pendingEmpty()
@@ -518,6 +701,10 @@ func (sc *scen) settle(what string) {
 		}
 		return false
 	})
+	if parked {
+		sc.parked = true
+		return
+	}
 	if silent {
 		sc.pendingWithPollerOff("after " + what)
 		return
@@ -539,9 +726,14 @@ func (sc *scen) settle(what string) {
 
 func (sc *scen) drain() []fwdMsg {
 	var out []fwdMsg
+	if sc.cfg.SlowReader {
+		// the reader holds its lock from taking a message to putting it into outC: whatever the watcher has handed over is in outC after this
+		sc.rd.mu.Lock()
+		sc.rd.mu.Unlock()
+	}
 	for {
 		select {
-		case m := <-sc.msgC:
+		case m := <-sc.outC:
 			f := fwdMsg{Body: bodyOfPayload(m.Payload), Tx: hNum(m.TxHash), CL: int(m.ConsistencyLevel), TS: uint64(m.Timestamp.Unix()),
 				Em: int(m.EmitterAddress[30])<<8 | int(m.EmitterAddress[31]), Seq: m.Sequence,
 				No: m.Nonce, Tg: uint16(m.TargetChain), Ch: uint16(m.EmitterChain)}
@@ -617,9 +809,76 @@ func (sc *scen) runStep(si int, st *step) {
 	var reobsInfo *mReobs
 	var logKey [4]uint64
 	var logOp *mLog
-	pendBefore := sc.pendingSnapshot()
+	var pendBefore map[[4]uint64]uint64
+	wasParked := sc.parked
+	if wasParked {
+		// the hand-over that an earlier step started is still waiting for the reader: this step and the ones since then are judged as
+		// one (the scan that decided to forward is still open); w.pendingMu is held by the watcher, the pending set cannot be read
+		switch st.Op {
+		case "restart", "resume-reader", "read", "stall":
+		default:
+			sc.harnessf("step %d: script error: %q while the watcher's hand-over is waiting for the reader", si, st.Op)
+			return
+		}
+		lk0, sc0, pendBefore, deaths0 = sc.pk.lk0, sc.pk.sc0, sc.pk.pendBefore, sc.pk.deaths0
+	} else {
+		pendBefore = sc.pendingSnapshot()
+	}
+	if strings.HasSuffix(st.Op, "-reader") || st.Op == "read" || st.Kill == "dropconn" {
+		if !sc.cfg.SlowReader {
+			sc.harnessf("step %d: script error: %q / kill %q needs cfg.slowreader", si, st.Op, st.Kill)
+			return
+		}
+	}
 
 	switch st.Op {
+	case "pause-reader":
+		sc.rd.mu.Lock()
+		sc.rd.on, sc.rd.budget = false, 0
+		sc.rd.mu.Unlock()
+		sc.pausedAt = si
+		sc.stats["reader_paused"]++
+
+	case "resume-reader", "read":
+		sc.parked = false
+		sc.rd.mu.Lock()
+		if st.Op == "read" {
+			n := st.N
+			if n <= 0 {
+				n = 1
+			}
+			sc.rd.budget += n
+		} else {
+			sc.rd.on, sc.rd.budget = true, 0
+		}
+		sc.rd.mu.Unlock()
+		if wasParked && sc.pk.restart != nil && st.Op == "resume-reader" {
+			// Run returned while the hand-over was parked and was re-entered: on the pinned code the re-entered Run waits for pendingMu,
+			// which the parked goroutine of the previous Run holds until its message has been taken
+			rw := sc.pk.restart
+			ops, _ := sc.awaitRunUp(rw.step, rw.kill, 1, rw.subs0, rw.calls0, rw.runs0, rw.deaths0, rw.pollsAtDeath)
+			restartOps = append([]interface{}{mPollDead{T: "polldead"}}, ops...)
+		}
+		if st.Op == "read" {
+			waitUntil(handOverDeadline, func() bool {
+				sc.rd.mu.Lock()
+				defer sc.rd.mu.Unlock()
+				return sc.rd.budget == 0
+			})
+			sc.rd.mu.Lock()
+			sc.rd.budget = 0
+			sc.rd.mu.Unlock()
+			sc.settle("read")
+			if !sc.parked {
+				sc.awaitHandOver()
+			}
+		} else {
+			if !sc.awaitHandOver() {
+				sc.stats["hand_overs_written_off"]++
+			}
+			sc.settle("resume-reader")
+		}
+
 	case "log", "foreign":
 		l := sc.logs[st.Body]
 		if l == nil {
@@ -797,6 +1056,9 @@ func (sc *scen) runStep(si int, st *step) {
 				return sim.pollsArrived >= p0+2
 			})
 		}
+		if st.Op == "stall" && st.DelayMs > 0 && sc.cfg.SlowReader {
+			time.Sleep(time.Duration(st.DelayMs) * time.Millisecond) // the processor stays busy for this long
+		}
 		sc.settle(st.Op)
 		sim.mu.Lock()
 		sim.pollFail = 0
@@ -807,6 +1069,47 @@ func (sc *scen) runStep(si int, st *step) {
 		sim.mu.Unlock()
 
 	case "restart":
+		if wasParked {
+			// Run is made to return for a reason that has nothing to do with the message in the hand-over
+			if st.Kill != "dropconn" {
+				sc.harnessf("step %d: script error: only kill dropconn is available while the hand-over is parked", si)
+				return
+			}
+			rw := &restartWait{step: si, kill: st.Kill, runs0: atomic.LoadInt64(&sc.runs), deaths0: atomic.LoadInt64(&sc.deaths), awayMs: st.DelayMs}
+			if rw.awayMs <= 0 {
+				rw.awayMs = 1500
+			}
+			sim.mu.Lock()
+			for _, n := range st.Upg {
+				sim.gs.sets = append(sim.gs.sets, sc.keyGen.set(n))
+			}
+			rw.subs0, rw.calls0 = sim.subCount, len(sim.gs.calls)
+			sim.mu.Unlock()
+			atomic.AddInt64(&sc.expectDeaths, 1)
+			sc.ss.dropConnections()
+			okDeath := waitUntil(2*rendezvousTimeout, func() bool { return atomic.LoadInt64(&sc.deaths) >= rw.deaths0+1 || sc.died.Load() != nil })
+			sim.mu.Lock()
+			rw.pollsAtDeath = sim.pollsArrived
+			sim.mu.Unlock()
+			if !okDeath {
+				sc.harnessf("step %d: Run did not return after the node dropped its connections (hand-over parked)", si)
+				break
+			}
+			rw.reentered = waitUntil(3*rendezvousTimeout, func() bool { return atomic.LoadInt64(&sc.runs) >= rw.runs0+1 || sc.died.Load() != nil })
+			if !rw.reentered {
+				sc.harnessf("step %d: the supervisor did not re-enter Run after the node dropped its connections", si)
+				break
+			}
+			// the processor stays busy for a while after Run has been re-entered
+			time.Sleep(time.Duration(rw.awayMs) * time.Millisecond)
+			if sc.w.pendingMu.TryLock() {
+				rw.lockFreeAfter = true
+				sc.w.pendingMu.Unlock()
+			}
+			sc.pk.restart = rw
+			sc.stats["restarts_while_parked"]++
+			break
+		}
 		expected := int64(1)
 		if st.GsFail != "" {
 			expected = 2
@@ -843,6 +1146,10 @@ func (sc *scen) runStep(si int, st *step) {
 			sim.pollFailAll = true
 			sim.mu.Unlock()
 			restartOps = append(restartOps, mPollDead{T: "polldead"})
+		case "dropconn":
+			// the node drops the watcher's connections (it stays up: the re-entered Run dials again): the log subscription fails
+			sc.ss.dropConnections()
+			restartOps = append(restartOps, mPollDead{T: "polldead"})
 		default:
 			sc.harnessf("step %d: unknown way to end Run: %q", si, st.Kill)
 		}
@@ -862,61 +1169,11 @@ func (sc *scen) runStep(si int, st *step) {
 			sc.harnessf("step %d: Run did not return after %s", si, st.Kill)
 			break
 		}
-		// the supervisor re-enters Run (after its back-off) on the same Watcher value: wait until the last re-entry has subscribed to the
-		// logs, fetched the guardian set (the last thing before the goroutines start) and its poller has read its first block
-		okUp := waitUntil(3*rendezvousTimeout, func() bool {
-			if sc.died.Load() != nil {
-				return true
-			}
-			if atomic.LoadInt64(&sc.runs) < runs0+expected || atomic.LoadInt64(&sc.deaths) < deaths0+expected {
-				return false
-			}
-			sim.mu.Lock()
-			defer sim.mu.Unlock()
-			okSet := 0 // the initial fetch of the last re-entry has been answered (the set call is its second call)
-			for _, c := range sim.gs.calls[calls0:] {
-				if c.Kind == "set" && !c.Err {
-					okSet++
-				}
-			}
-			return sim.subCount >= subs0+int(expected) && okSet >= 1 && sim.pollsArrived > pollsAtDeath
-		})
+		ops, okUp := sc.awaitRunUp(si, st.Kill, expected, subs0, calls0, runs0, deaths0, pollsAtDeath)
 		if !okUp {
-			sim.mu.Lock()
-			sc.harnessf("step %d: Run was not up again after %s (entered %d times since, returned %d times, subscriptions %d, guardian-set calls %+v)", si, st.Kill,
-				atomic.LoadInt64(&sc.runs)-runs0, atomic.LoadInt64(&sc.deaths)-deaths0, sim.subCount-subs0, sim.gs.calls[calls0:])
-			sim.mu.Unlock()
 			break
 		}
-		time.Sleep(100 * time.Millisecond)
-		sc.stats["restarts"] += int(expected)
-		if sc.pendingEmpty() {
-			sc.pollerOff = true // nothing pending: the new poller stays off until the next log
-		} else if sc.pollerAlive() {
-			sc.pollerOff = false
-		} else {
-			sc.pendingWithPollerOff(fmt.Sprintf("step %d: Run returned (%s) and was re-entered on the same Watcher value", si, st.Kill))
-		}
-		sim.mu.Lock()
-		cs := append([]gsCall(nil), sim.gs.calls[calls0:]...)
-		// the new poller takes the node's head at its start as its first lastBlock: a head it never publishes (as at the first start)
-		if sim.head > sim.lastProcessed {
-			sim.lastProcessed = sim.head
-		}
-		sim.mu.Unlock()
-		for i := 0; i < len(cs); i++ {
-			if cs[i].Kind != "idx" {
-				continue
-			}
-			op := mRestart{T: "restart", AnsIdx: cs[i].Idx, Asked: -1, Keys: []int{}}
-			if !cs[i].Err && i+1 < len(cs) && cs[i+1].Kind == "set" {
-				op.Asked, op.SetErr = cs[i+1].Asked, cs[i+1].Err
-				if !cs[i+1].Err {
-					op.Keys = cs[i+1].Keys
-				}
-			}
-			restartOps = append(restartOps, op)
-		}
+		restartOps = append(restartOps, ops...)
 		sc.settle("restart")
 
 	case "reorg":
@@ -1044,6 +1301,26 @@ func (sc *scen) runStep(si int, st *step) {
 	if d := sc.died.Load(); d != nil {
 		sc.harnessf("step %d (%s): watcher terminated: %v", si, st.Op, d)
 	}
+	var parkedFrom *parkState
+	if sc.parked {
+		// the watcher sits in the send, in the middle of a scan, holding pendingMu: nothing can be observed or judged before the reader
+		// is back.  What this step saw before it acted is kept; the step that ends the hand-over is judged on it.
+		if !wasParked {
+			if st.Op == "reobs" {
+				sc.harnessf("step %d: script error: a re-observation request while the reader is away", si)
+				return
+			}
+			sc.pk = &parkState{lk0: lk0, sc0: sc0, pendBefore: pendBefore, deaths0: deaths0, step: si, op: st.Op, logOp: logOp, logKey: logKey}
+			sc.stats["hand_overs_parked"]++
+		}
+		sc.groups = append(sc.groups, group{Step: si, Ops: []interface{}{}, Fw: []fwdMsg{}, Pend: sortedPend(pendBefore), Sets: []gsSent{}})
+		return
+	}
+	if wasParked {
+		parkedFrom = sc.pk
+		sc.pk = nil
+		logOp, logKey = parkedFrom.logOp, parkedFrom.logKey
+	}
 	// ------------------------------------------------ observe
 	fw := sc.drain()
 	pend := sc.pendingSnapshot()
@@ -1068,6 +1345,9 @@ func (sc *scen) runStep(si int, st *step) {
 	}
 	if st.Op == "log" {
 		pendTx[st.Tx] = true
+	}
+	if logOp != nil {
+		pendTx[logOp.Tx] = true
 	}
 	scanLk := func(s scanRec) []lookupRec {
 		var out []lookupRec
@@ -1289,6 +1569,46 @@ drainSets:
 			}
 		}
 	}
+	// (a') hand-over under back-pressure: a scan that never completed (written off handOverDeadline after the reader had come back and Run
+	// was up again).  A message whose receipt that scan looked up and found unchanged at sufficient depth was DECIDED: the watcher
+	// removed it from w.pending and went to hand it over.  If nobody got it and it is not pending either, it is lost.
+	for _, s := range scans {
+		if !s.Abandoned {
+			continue
+		}
+		lks := scanLk(s)
+		for key, inst := range sc.insts {
+			if !inst.awaiting {
+				continue
+			}
+			e := sc.expected(inst.log.CL)
+			decided := false
+			for _, lk := range lks {
+				if lk.Tx == inst.log.Tx && lk.Code == 2 && lk.Status == 1 && lk.BH == inst.bh && inst.block+e <= s.N {
+					decided = true
+				}
+			}
+			_, stillPending := pend[key]
+			r := rcptOf(inst.log.Tx)
+			if !decided || got[key] > 0 || stillPending || r == nil || r.Status != 1 || r.BH != inst.bh {
+				continue
+			}
+			how, where := "lost while the hand-over was waiting for the processor", ""
+			if parkedFrom != nil && parkedFrom.restart != nil {
+				rw := parkedFrom.restart
+				how = "lost across a restart of Run while the hand-over was waiting for the processor"
+				where = fmt.Sprintf("; step %d: the node dropped the watcher's connections, Run returned (%v) and was re-entered by the supervisor, the reader stayed away for another %d ms (w.pendingMu free at that time: %v)",
+					rw.step, sc.lastDeath.Load(), rw.awayMs, rw.lockFreeAfter)
+			}
+			from := si
+			if parkedFrom != nil {
+				from = parkedFrom.step
+			}
+			sc.monf("liveness:lost-in-hand-over", "message of tx %d (block %d, level %d, emitter %d, sequence %d) was confirmed at head %d (receipt looked up: status 1, same block) and handed to nobody: %s. Message channel unbuffered as in node.go, reader paused at step %d, head %d processed at step %d%s, reader back at step %d; %v later the message has not come out, it is not in w.pending (%v), the scan of head %d never completed (%d 'observation confirmed' line(s)), and the transaction never left its block",
+				inst.log.Tx, inst.block, inst.log.CL, inst.log.Em, inst.log.Seq, s.N, how, sc.pausedAt, s.N, from, where, si, handOverDeadline, sortedPend(pend), s.N, countStr(s.Notes, "confirmed"))
+			inst.awaiting = false
+		}
+	}
 	// (b) liveness and drops, scan by scan
 	for idx, s := range scans {
 		last := idx == len(scans)-1
@@ -1400,6 +1720,79 @@ drainSets:
 			sc.monf("safety:unexpected-pending", "step %d: w.pending holds a key that no core-contract log produced: %v", si, key)
 		}
 	}
+}
+
+// awaitRunUp: Run has returned; the supervisor re-enters it (after its back-off) on the same Watcher value.  Returns the model's
+// restart operations (one per initial guardian-set fetch that was made).
+func (sc *scen) awaitRunUp(si int, kill string, expected int64, subs0, calls0 int, runs0, deaths0 int64, pollsAtDeath uint64) ([]interface{}, bool) {
+	sim := sc.sim
+	var restartOps []interface{}
+	// the supervisor re-enters Run (after its back-off) on the same Watcher value: wait until the last re-entry has subscribed to the
+	// logs, fetched the guardian set (the last thing before the goroutines start) and its poller has read its first block
+	okUp := waitUntil(3*rendezvousTimeout, func() bool {
+		if sc.died.Load() != nil {
+			return true
+		}
+		if atomic.LoadInt64(&sc.runs) < runs0+expected || atomic.LoadInt64(&sc.deaths) < deaths0+expected {
+			return false
+		}
+		sim.mu.Lock()
+		defer sim.mu.Unlock()
+		okSet := 0 // the initial fetch of the last re-entry has been answered (the set call is its second call)
+		for _, c := range sim.gs.calls[calls0:] {
+			if c.Kind == "set" && !c.Err {
+				okSet++
+			}
+		}
+		return sim.subCount >= subs0+int(expected) && okSet >= 1 && sim.pollsArrived > pollsAtDeath
+	})
+	if !okUp {
+		sim.mu.Lock()
+		sc.harnessf("step %d: Run was not up again after %s (entered %d times since, returned %d times, subscriptions %d, guardian-set calls %+v)", si, kill,
+			atomic.LoadInt64(&sc.runs)-runs0, atomic.LoadInt64(&sc.deaths)-deaths0, sim.subCount-subs0, sim.gs.calls[calls0:])
+		sim.mu.Unlock()
+		return nil, false
+	}
+	time.Sleep(100 * time.Millisecond)
+	sc.stats["restarts"] += int(expected)
+	if sc.pendingEmpty() {
+		sc.pollerOff = true // nothing pending: the new poller stays off until the next log
+	} else if sc.pollerAlive() {
+		sc.pollerOff = false
+	} else {
+		sc.pendingWithPollerOff(fmt.Sprintf("step %d: Run returned (%s) and was re-entered on the same Watcher value", si, kill))
+	}
+	sim.mu.Lock()
+	cs := append([]gsCall(nil), sim.gs.calls[calls0:]...)
+	// the new poller takes the node's head at its start as its first lastBlock: a head it never publishes (as at the first start)
+	if sim.head > sim.lastProcessed {
+		sim.lastProcessed = sim.head
+	}
+	sim.mu.Unlock()
+	for i := 0; i < len(cs); i++ {
+		if cs[i].Kind != "idx" {
+			continue
+		}
+		op := mRestart{T: "restart", AnsIdx: cs[i].Idx, Asked: -1, Keys: []int{}}
+		if !cs[i].Err && i+1 < len(cs) && cs[i+1].Kind == "set" {
+			op.Asked, op.SetErr = cs[i+1].Asked, cs[i+1].Err
+			if !cs[i+1].Err {
+				op.Keys = cs[i+1].Keys
+			}
+		}
+		restartOps = append(restartOps, op)
+	}
+	return restartOps, true
+}
+
+func countStr(l []string, x string) int {
+	n := 0
+	for _, y := range l {
+		if y == x {
+			n++
+		}
+	}
+	return n
 }
 
 func keyBlock(i *gtInst) uint64 {
@@ -1692,6 +2085,24 @@ func genScript(r *erng, cfg *scenCfg, sentinel bool, maxWait uint64) []step {
 	return out
 }
 
+// withReaderAway wraps fault-free head steps into pause-reader / head / resume-reader: whatever that head confirms is handed over
+// only when the reader is back (the steps in between are judged as one)
+func withReaderAway(r *erng, in []step) []step {
+	var out []step
+	for _, st := range in {
+		if st.Op == "head" && !st.ErrAll && len(st.ErrTx) == 0 && st.PollFail == 0 && r.chance(45) {
+			out = append(out, step{Op: "pause-reader"}, st)
+			if r.chance(25) {
+				out = append(out, step{Op: "stall"})
+			}
+			out = append(out, step{Op: "resume-reader"})
+			continue
+		}
+		out = append(out, st)
+	}
+	return out
+}
+
 func min(a, b int) int {
 	if a < b {
 		return a
@@ -1712,6 +2123,7 @@ func corpus() []struct {
 		return step{Op: "log", Tx: tx, Body: body, Em: 1, Seq: uint64(body), CL: cl, Block: blk, BH: tx}
 	}
 	hd := func(to uint64) step { return step{Op: "head", To: to} }
+	pause, resume := step{Op: "pause-reader"}, step{Op: "resume-reader"}
 	return []S{
 		{scenCfg{Wait: true, Head0: 990, PollMs: 1, Name: "jump-past-window"}, []step{lg(1, 1, 1000, 1), hd(1065), hd(1066)}},
 		{scenCfg{Wait: true, Head0: 990, PollMs: 1, Name: "jump-to-window-end-exactly"}, []step{lg(1, 1, 1000, 1), hd(1061), hd(1062)}},
@@ -1773,6 +2185,25 @@ func corpus() []struct {
 		{scenCfg{Wait: true, Head0: 999, PollMs: 1, Name: "restart-orphaned-while-down"},
 			[]step{lg(1, 1, 1000, 1), lg(2, 2, 1000, 1), {Op: "restart", Kill: "blocktime", Tx: 3, Body: 3, Em: 1, Seq: 3, CL: 1, Block: 1000, BH: 3},
 				{Op: "reorg", Tx: 1, How: "gone"}, {Op: "reobs", Tx: 3}, hd(1100), lg(4, 4, 1100, 1), hd(1101), hd(1102)}},
+		// ---- hand-over under back-pressure: the message channel is unbuffered (as lockC in node.go) and the reader (the processor) is busy
+		// (a) confirmed while the reader is away, reader back later: exactly once; a message confirmed with the reader present in between
+		{scenCfg{Wait: true, Head0: 999, PollMs: 1, SlowReader: true, Name: "handover-reader-away-then-back"},
+			[]step{lg(1, 1, 1000, 1), hd(1000), pause, hd(1001), {Op: "stall", DelayMs: 1200}, resume, lg(2, 2, 1001, 1), hd(1002), pause, lg(3, 3, 1002, 2), hd(1003), resume, hd(1004), hd(1005)}},
+		// (b) the seeded situation: confirmed while the reader is away, Run returns for an unrelated reason (the node drops the connections)
+		// while the send is parked, the supervisor re-enters Run, the reader is back 1.5 s later: exactly once, and later messages still flow
+		{scenCfg{Wait: true, Head0: 999, PollMs: 1, SlowReader: true, Name: "handover-run-restarted-while-parked"},
+			[]step{lg(1, 1, 1000, 1), pause, hd(1001), {Op: "restart", Kill: "dropconn", DelayMs: 1500}, resume, hd(1002), lg(2, 2, 1002, 1), hd(1003), hd(1004)}},
+		{scenCfg{Wait: false, Finalized: true, Head0: 999, PollMs: 1, SlowReader: true, Name: "handover-run-restarted-while-parked-finalized-mode"},
+			[]step{lg(1, 1, 1000, 1), lg(2, 2, 1005, 1), pause, hd(1001), {Op: "restart", Kill: "dropconn", DelayMs: 1000, Upg: []int{3}}, resume, hd(1004), hd(1005), lg(3, 3, 1005, 1), hd(1006)}},
+		// (c) two messages confirmed in one scan with the reader away: both exactly once (reader back / one message read, then Run
+		// restarted while the second is parked)
+		{scenCfg{Wait: true, Head0: 999, PollMs: 1, SlowReader: true, Name: "handover-two-messages-in-one-scan"},
+			[]step{lg(1, 1, 1000, 1), lg(2, 2, 1000, 1), lg(3, 3, 1000, 5), pause, hd(1001), resume, hd(1002), hd(1005), hd(1006)}},
+		{scenCfg{Wait: true, Head0: 999, PollMs: 1, SlowReader: true, Name: "handover-two-messages-one-read-then-restart"},
+			[]step{lg(1, 1, 1000, 1), lg(2, 2, 1000, 1), pause, hd(1001), {Op: "read", N: 1}, {Op: "restart", Kill: "dropconn", DelayMs: 1200}, resume, lg(3, 3, 1001, 1), hd(1002), hd(1003)}},
+		// a restart by a dropped connection with the reader present (nothing parked): pending survives, forwarded by the re-entered Run
+		{scenCfg{Wait: true, Head0: 999, PollMs: 1, SlowReader: true, Name: "handover-dropped-connection-reader-present"},
+			[]step{lg(1, 1, 1000, 3), hd(1001), {Op: "restart", Kill: "dropconn"}, hd(1002), hd(1003), hd(1004)}},
 	}
 }
 
@@ -1823,8 +2254,26 @@ func TestVerifC10(t *testing.T) {
 			cfg := scenCfg{Wait: r.chance(65), Finalized: r.chance(25), Head0: uint64(1000 + r.below(200)), PollMs: 1, Name: fmt.Sprintf("gen-%d", i)}
 			cfg.Sentinel = r.chance(70)
 			cfg.Restarts = r.chance(30)
-			jobs = append(jobs, job{100 + i, cfg, genScript(r, &cfg, cfg.Sentinel, probe.maxWaitConfirmations)})
+			script := genScript(r, &cfg, cfg.Sentinel, probe.maxWaitConfirmations)
+			// hand-over under back-pressure in a few generated histories (drawn from a generator of its own: the other histories of a
+			// seed stay what they were): unbuffered message channel, and the reader is away while some of the heads are processed
+			r2 := &erng{s: evmSeed()*998244353 + uint64(i)*104729 + 71}
+			if r2.chance(6) {
+				cfg.SlowReader = true
+				script = withReaderAway(r2, script)
+			}
+			jobs = append(jobs, job{100 + i, cfg, script})
 		}
+	}
+	if only := os.Getenv("VERIF_C10_ONLY"); only != "" {
+		// debugging aid: only the histories whose name contains the given text
+		var keep []job
+		for _, j := range jobs {
+			if strings.Contains(j.cfg.Name, only) {
+				keep = append(keep, j)
+			}
+		}
+		jobs = keep
 	}
 	workers := 12
 	var wg sync.WaitGroup
